@@ -1,2 +1,486 @@
-(* Leaf/LeafSpecs3.v — under construction (C19) *)
-From M4 Require Import Leaf.CMini.
+(* Leaf/LeafSpecs3.v — the TRANSLATED leaf functions whose control depends on data:
+   m4ri_lesser_LSB (misc.h:466) for all pairs of words (real proof), log2_floor (graycode.h:151)
+   for every non-negative int (real proof through the logarithmic-fuel loop), m4ri_gray_code
+   (graycode.c:31; finite sweep, bound in the statement). *)
+From Coq Require Import ZArith NArith List String Bool Lia ZifyBool ZifyNat ZifyN.
+From M4 Require Import Base.Bits Lin.Ops Leaf.CMini Leaf.Gen_leaf Leaf.LeafSpecs Leaf.LeafSpecs2
+  Leaf.LeafSpecs4 Alg.Gray Alg.GrayProofs.
+Import ListNotations.
+Local Open Scope Z_scope.
+
+(** * m4ri_lesser_LSB *)
+(** LSBI(w): index of the least significant set bit, 64 if w = 0 (the wording of misc.h:459) *)
+Definition lsbi (w : Z) : Z := match w with Zpos p => Z.of_nat (ctz_pos p) | _ => 64 end.
+
+Lemma lsbi_pos_spec p :
+  Z.testbit (Zpos p) (Z.of_nat (ctz_pos p)) = true /\
+  forall k, 0 <= k < Z.of_nat (ctz_pos p) -> Z.testbit (Zpos p) k = false.
+Proof.
+  induction p as [p IH|p IH|]; cbn [ctz_pos].
+  - split; [reflexivity|]. intros k Hk. cbn in Hk. lia.
+  - destruct IH as [IH1 IH2]. rewrite Nat2Z.inj_succ, Pos2Z.inj_xO. split.
+    + rewrite Z.double_bits_succ. exact IH1.
+    + intros k Hk. destruct (Z.eq_dec k 0) as [->|Hne]; [apply Z.testbit_even_0|].
+      replace k with (Z.succ (k - 1)) by lia. rewrite Z.double_bits_succ. apply IH2. lia.
+  - split; [reflexivity|]. intros k Hk. cbn in Hk. lia.
+Qed.
+
+Lemma lsbi_spec w : 0 < w ->
+  0 <= lsbi w /\ Z.testbit w (lsbi w) = true /\ forall k, 0 <= k < lsbi w -> Z.testbit w k = false.
+Proof.
+  destruct w as [|p|p]; try lia. intros _. cbn [lsbi]. split; [lia|apply lsbi_pos_spec].
+Qed.
+
+Lemma lxor_2 x y (bx bY : bool) :
+  Z.lxor (2 * x + Z.b2z bx) (2 * y + Z.b2z bY) = 2 * Z.lxor x y + Z.b2z (xorb bx bY).
+Proof.
+  apply Z.bits_inj'. intros n Hn. rewrite Z.lxor_spec.
+  destruct (Z.eq_dec n 0) as [->|Hne].
+  - now rewrite !Z.testbit_0_r.
+  - replace n with (Z.succ (n - 1)) by lia. rewrite !Z.testbit_succ_r by lia. symmetry. apply Z.lxor_spec.
+Qed.
+
+Lemma lxor_pred p : Z.lxor (Zpos p - 1) (Zpos p) = Z.ones (Z.of_nat (S (ctz_pos p))).
+Proof.
+  induction p as [p IH|p IH|]; cbn [ctz_pos].
+  - replace (Z.lxor (Zpos p~1 - 1) (Zpos p~1))
+      with (Z.lxor (2 * Zpos p + Z.b2z false) (2 * Zpos p + Z.b2z true)) by (f_equal; cbn [Z.b2z]; lia).
+    rewrite lxor_2, Z.lxor_nilpotent. reflexivity.
+  - replace (Z.lxor (Zpos p~0 - 1) (Zpos p~0))
+      with (Z.lxor (2 * (Zpos p - 1) + Z.b2z true) (2 * Zpos p + Z.b2z false)) by (f_equal; cbn [Z.b2z]; lia).
+    rewrite lxor_2, IH. cbn [xorb Z.b2z]. rewrite !Z.ones_equiv.
+    rewrite (Nat2Z.inj_succ (S (ctz_pos p))), Z.pow_succ_r by lia. lia.
+  - reflexivity.
+Qed.
+
+Lemma mod_pow2_ctz : forall t q, (Zpos q mod 2 ^ Z.of_nat (S t) =? 0) = (t <? ctz_pos q)%nat.
+Proof.
+  induction t as [|t IH]; intros q.
+  - change (2 ^ Z.of_nat 1) with 2. destruct q as [q|q|]; cbn [ctz_pos].
+    + rewrite Pos2Z.inj_xI, Z.add_comm, Z.mul_comm, Z.mod_add by lia. reflexivity.
+    + rewrite Pos2Z.inj_xO, Z.mul_comm, Z.mod_mul by lia. reflexivity.
+    + reflexivity.
+  - rewrite (Nat2Z.inj_succ (S t)), Z.pow_succ_r by lia.
+    assert (Hp : 0 < 2 ^ Z.of_nat (S t)) by (apply Z.pow_pos_nonneg; lia).
+    destruct q as [q|q|]; cbn [ctz_pos].
+    + destruct (Z.eqb_spec (Zpos q~1 mod (2 * 2 ^ Z.of_nat (S t))) 0) as [E|_]; [|reflexivity].
+      apply Z.mod_divide in E; [|lia]. destruct E as [k Hk]. rewrite Pos2Z.inj_xI in Hk.
+      set (km := k * 2 ^ Z.of_nat (S t)) in *. assert (k * (2 * 2 ^ Z.of_nat (S t)) = 2 * km) by (unfold km; ring). lia.
+    + rewrite Pos2Z.inj_xO, Z.mul_mod_distr_l by lia.
+      replace (2 * (Zpos q mod 2 ^ Z.of_nat (S t)) =? 0) with (Zpos q mod 2 ^ Z.of_nat (S t) =? 0) by lia.
+      rewrite IH. reflexivity.
+    + rewrite Z.mod_small; [reflexivity|]. lia.
+Qed.
+
+Lemma lesser_core a b : 0 < a -> 0 < b ->
+  (Z.land (Z.lxor (a - 1) a) b =? 0) = (lsbi a <? lsbi b).
+Proof.
+  destruct a as [|p|p], b as [|q|q]; try lia. intros _ _. cbn [lsbi].
+  rewrite lxor_pred, Z.land_comm, Z.land_ones by lia. rewrite mod_pow2_ctz.
+  destruct (Nat.ltb_spec (ctz_pos p) (ctz_pos q)); lia.
+Qed.
+
+Lemma lsbi_w64 a : w64 a -> 0 < a -> lsbi a < 64.
+Proof.
+  intros [H0 H1] Hp. destruct (lsbi_spec a Hp) as (Hn & Hb & _).
+  destruct (Z.lt_ge_cases (lsbi a) 64) as [|Hge]; [assumption|].
+  rewrite (w64_high a (lsbi a)) in Hb by (unfold w64; lia). discriminate.
+Qed.
+
+(** for ALL pairs of 64-bit words: returns 1 iff LSBI(a) < LSBI(b), else 0 *)
+Theorem lesser_LSB_spec a b : w64 a -> w64 b ->
+  call_int "m4ri_lesser_LSB" [a; b] = Ok (if lsbi a <? lsbi b then 1 else 0).
+Proof.
+  intros Ha Hb. unfold call_int, interp. change DEPTH with (S 11). rewrite run_S.
+  change (find_func leaf_prog "m4ri_lesser_LSB") with (Some f_m4ri_lesser_LSB).
+  generalize (run zops leaf_prog LFUEL 11); intros call. generalize LFUEL; intros lf.
+  cbn. change 18446744073709551616 with M64.
+  destruct (Z.eqb_spec b 0) as [->|Hbne]; cbn.
+  - (* b = 0: true iff a <> 0 *)
+    destruct (Z.eqb_spec a 0) as [->|Hane]; cbn; [reflexivity|].
+    assert (lsbi a < 64) by (apply lsbi_w64; unfold w64 in *; lia).
+    cbn [lsbi]. destruct (Z.ltb_spec (lsbi a) 64); [reflexivity|lia].
+  - assert (Hbp : 0 < b) by (unfold w64 in Hb; lia).
+    destruct (Z.eq_dec a 0) as [->|Hane].
+    + (* a = 0: (0 - 1) mod 2^64 is all ones, so the conjunction is b <> 0: false *)
+      change ((0 - 1) mod M64) with (Z.ones 64). rewrite Z.lxor_0_r.
+      rewrite (Z.mod_small (Z.ones 64)) by (unfold M64; cbn; lia).
+      rewrite Z.land_comm, Z.land_ones by lia. change (2 ^ 64) with M64.
+      rewrite Z.mod_mod by (unfold M64; lia). rewrite Z.mod_small by (unfold w64, M64 in *; lia).
+      destruct (Z.eqb_spec b 0); [lia|]. cbn.
+      pose proof (lsbi_w64 b Hb Hbp). cbn [lsbi]. destruct (Z.ltb_spec 64 (lsbi b)); [lia|reflexivity].
+    + assert (Hap : 0 < a) by (unfold w64 in Ha; lia).
+      rewrite (Z.mod_small (a - 1)) by (unfold w64, M64 in *; lia).
+      assert (Hx : w64 (Z.lxor (a - 1) a)).
+      { rewrite <- (Z2Pos.id a Hap). rewrite lxor_pred. unfold w64. rewrite Z.ones_equiv. split.
+        - pose proof (Z.pow_pos_nonneg 2 (Z.of_nat (S (ctz_pos (Z.to_pos a)))) ltac:(lia) ltac:(lia)). lia.
+        - assert (Z.of_nat (ctz_pos (Z.to_pos a)) < 64).
+          { pose proof (lsbi_w64 a Ha Hap) as Hl. destruct a; try lia. exact Hl. }
+          assert (2 ^ Z.of_nat (S (ctz_pos (Z.to_pos a))) <= 2 ^ 64) by (apply Z.pow_le_mono_r; lia). lia. }
+      rewrite (Z.mod_small (Z.lxor (a - 1) a)) by (unfold w64, M64 in *; lia).
+      assert (Hland : 0 <= Z.land (Z.lxor (a - 1) a) b < M64).
+      { split; [apply Z.land_nonneg; left; apply Hx|].
+        destruct (Z.eq_dec (Z.land (Z.lxor (a - 1) a) b) 0) as [->|Hlne]; [reflexivity|].
+        assert (0 <= Z.land (Z.lxor (a - 1) a) b) by (apply Z.land_nonneg; left; apply Hx).
+        change M64 with (2 ^ 64). apply Z.log2_lt_pow2; [lia|].
+        pose proof (Z.log2_land (Z.lxor (a - 1) a) b ltac:(apply Hx) ltac:(lia)).
+        assert (Z.log2 b < 64) by (apply Z.log2_lt_pow2; unfold w64 in *; lia). lia. }
+      rewrite (Z.mod_small _ _ Hland). rewrite lesser_core by assumption.
+      destruct (lsbi a <? lsbi b); reflexivity.
+Qed.
+
+(** * Loops with logarithmic fuel: a loop that stops after k < 2^n iterations is not cut short *)
+Section IterLog.
+  Context {S R : Type} (f : S -> res (lstep S R)).
+
+  (** [reach k s r]: k iterations continue, the (k+1)-st evaluation of [f] stops with [r] *)
+  Inductive reach : nat -> S -> R -> Prop :=
+  | reach0 s r : f s = Ok (LStop r) -> reach 0 s r
+  | reachS k s s' r : f s = Ok (LCont s') -> reach k s' r -> reach (Datatypes.S k) s r.
+
+  Lemma iter_log_cont n : forall k s r, reach k s r -> (2 ^ n <= k)%nat ->
+    exists s', iter_log n f s = Ok (LCont s') /\ reach (k - 2 ^ n) s' r.
+  Proof.
+    induction n as [|n IH]; intros k s r Hr Hk; cbn [iter_log].
+    - cbn in Hk. inversion Hr; subst; [lia|]. exists s'. split; [assumption|].
+      replace (Datatypes.S k0 - 2 ^ 0)%nat with k0 by (cbn; lia). assumption.
+    - cbn [Nat.pow] in Hk. destruct (IH k s r Hr ltac:(lia)) as (s1 & E1 & R1). rewrite E1.
+      destruct (IH _ s1 r R1 ltac:(lia)) as (s2 & E2 & R2). exists s2. split; [assumption|].
+      replace (k - 2 ^ Datatypes.S n)%nat with (k - 2 ^ n - 2 ^ n)%nat by (cbn [Nat.pow]; lia). assumption.
+  Qed.
+
+  Lemma iter_log_reach n : forall k s r, reach k s r -> (k < 2 ^ n)%nat -> iter_log n f s = Ok (LStop r).
+  Proof.
+    induction n as [|n IH]; intros k s r Hr Hk; cbn [iter_log].
+    - cbn in Hk. inversion Hr; subst; [assumption|lia].
+    - destruct (Nat.lt_ge_cases k (2 ^ n)) as [Hlt|Hge].
+      + now rewrite (IH k s r Hr Hlt).
+      + destruct (iter_log_cont n k s r Hr Hge) as (s1 & E1 & R1). rewrite E1.
+        apply (IH _ s1 r R1). cbn [Nat.pow] in Hk. lia.
+  Qed.
+End IterLog.
+
+Lemma pow2_nat_ge n : (n < 2 ^ n)%nat.
+Proof. apply Nat.pow_gt_lin_r. lia. Qed.
+
+Lemma exec_Sloop_reach call lf c body step e m k o :
+  reach (loop_step zops c (exec zops call lf body) (exec zops call lf step)) k (e, m) o ->
+  (k < lf)%nat ->
+  exec zops call lf (Sloop c body step) e m = Ok o.
+Proof.
+  intros Hr Hk. cbn [exec]. rewrite (iter_log_reach _ lf k (e, m) o Hr).
+  - reflexivity.
+  - pose proof (pow2_nat_ge lf). lia.
+Qed.
+
+(** * log2_floor (graycode.h:151) *)
+Definition l2_cond := Some (Ecmp Cge (Evar 5) (Econst 0)).
+Definition l2_body :=
+ (Sif (Ebinop Oand tuint (Ecast tuint (Evar 1)) (Eindex (Evar 2) (Evar 5)))
+ (Sseq (Sassign (Lvar 1) (Eshift Oshr tint (Evar 1) (Eindex (Evar 3) (Evar 5))))
+ (Sassign (Lvar 4) (Ebinop Oor tuint (Evar 4) (Eindex (Evar 3) (Evar 5)))))
+ Sskip).
+Definition l2_step := (Sassign (Lvar 5) (Ebinop Osub tint (Evar 5) (Econst 1))).
+Definition l2_loop := Sloop l2_cond l2_body l2_step.
+Definition l2_ret := Sreturn (Some (Ecast tint (Evar 4))).
+Definition l2_whole :=
+ (Sseq (Sdeclarr 2 5 (Some [(Ecast tuint (Econst 2)); (Ecast tuint (Econst 12)); (Ecast tuint (Econst 240)); (Ecast tuint (Econst 65280)); (Econst 4294901760)]))
+ (Sseq (Sdeclarr 3 5 (Some [(Ecast tuint (Econst 1)); (Ecast tuint (Econst 2)); (Ecast tuint (Econst 4)); (Ecast tuint (Econst 8)); (Ecast tuint (Econst 16))]))
+ (Sseq (Sdecl 4 (Some (Ecast tuint (Econst 0))))
+ (Sseq (Sseq (Sdecl 5 (Some (Econst 4))) l2_loop) l2_ret)))).
+
+Lemma l2_syntax : fn_body f_log2_floor = l2_whole.
+Proof. reflexivity. Qed.
+
+Definition l2env (v r i : Z) : @env Z :=
+  tset 5 (Vint i) (tset 4 (Vint r) (tset 3 (Vptr 2 0) (tset 2 (Vptr 1 0) (tset 1 (Vint v) TLeaf)))).
+
+(** the memory after the two (static const) tables have been set up *)
+Definition l2mem : @mem Z :=
+  Eval vm_compute in
+    let m1 := alloc (@empty_mem Z) 5 (fill zops [2; 12; 240; 65280; 4294901760] 0 5 TLeaf) in
+    fst (alloc (fst m1) 5 (fill zops [1; 2; 4; 8; 16] 0 5 TLeaf)).
+
+Lemma l2_prologue call lf v :
+  exec zops call lf l2_whole (tset 1 (Vint v) TLeaf) empty_mem =
+  (do o <- exec zops call lf l2_loop (l2env v 0 4) l2mem;
+   match o with ONormal e' m' => exec zops call lf l2_ret e' m' | _ => Ok o end).
+Proof. reflexivity. Qed.
+
+(** one iteration: mask b[i], shift S[i] *)
+Definition l2it (s mask : Z) (vr : Z * Z) : Z * Z :=
+  if Z.land (fst vr mod 4294967296) mask mod 4294967296 =? 0 then vr
+  else (Z.shiftr (fst vr) s, Z.lor (snd vr) s mod 4294967296).
+
+Definition l2f call lf := loop_step zops l2_cond (exec zops call lf l2_body) (exec zops call lf l2_step).
+
+Ltac l2_iter :=
+  intros; unfold l2f, loop_step, truth, l2_cond, l2_body, l2_step, l2it, l2env, l2mem; cbn;
+  match goal with |- context [if ?c =? 0 then _ else _] => destruct (c =? 0) end; cbn; reflexivity.
+
+Lemma l2_iter4 call lf vr : l2f call lf (l2env (fst vr) (snd vr) 4, l2mem) =
+  Ok (LCont (l2env (fst (l2it 16 4294901760 vr)) (snd (l2it 16 4294901760 vr)) 3, l2mem)).
+Proof. destruct vr as [v r]. cbn [fst snd]. l2_iter. Qed.
+Lemma l2_iter3 call lf vr : l2f call lf (l2env (fst vr) (snd vr) 3, l2mem) =
+  Ok (LCont (l2env (fst (l2it 8 65280 vr)) (snd (l2it 8 65280 vr)) 2, l2mem)).
+Proof. destruct vr as [v r]. cbn [fst snd]. l2_iter. Qed.
+Lemma l2_iter2 call lf vr : l2f call lf (l2env (fst vr) (snd vr) 2, l2mem) =
+  Ok (LCont (l2env (fst (l2it 4 240 vr)) (snd (l2it 4 240 vr)) 1, l2mem)).
+Proof. destruct vr as [v r]. cbn [fst snd]. l2_iter. Qed.
+Lemma l2_iter1 call lf vr : l2f call lf (l2env (fst vr) (snd vr) 1, l2mem) =
+  Ok (LCont (l2env (fst (l2it 2 12 vr)) (snd (l2it 2 12 vr)) 0, l2mem)).
+Proof. destruct vr as [v r]. cbn [fst snd]. l2_iter. Qed.
+Lemma l2_iter0 call lf vr : l2f call lf (l2env (fst vr) (snd vr) 0, l2mem) =
+  Ok (LCont (l2env (fst (l2it 1 2 vr)) (snd (l2it 1 2 vr)) (-1), l2mem)).
+Proof. destruct vr as [v r]. cbn [fst snd]. l2_iter. Qed.
+Lemma l2_iter_stop call lf v r : l2f call lf (l2env v r (-1), l2mem) =
+  Ok (LStop (ONormal (l2env v r (-1)) l2mem)).
+Proof. intros. unfold l2f, loop_step, truth, l2_cond, l2env. cbn. reflexivity. Qed.
+
+Definition log2_model (v : Z) : Z :=
+  snd (l2it 1 2 (l2it 2 12 (l2it 4 240 (l2it 8 65280 (l2it 16 4294901760 (v, 0)))))).
+
+Lemma l2_reach call lf v :
+  exists vf, reach (l2f call lf) 5 (l2env v 0 4, l2mem) (ONormal (l2env vf (log2_model v) (-1)) l2mem).
+Proof.
+  eexists. change (l2env v 0 4) with (l2env (fst (v, 0)) (snd (v, 0)) 4).
+  eapply reachS; [apply l2_iter4|]. eapply reachS; [apply l2_iter3|].
+  eapply reachS; [apply l2_iter2|]. eapply reachS; [apply l2_iter1|].
+  eapply reachS; [apply l2_iter0|]. apply reach0. apply l2_iter_stop.
+Qed.
+
+(** the translated function returns [log2_model v] (as an int) for EVERY int argument *)
+Lemma log2_floor_run v :
+  call_int "log2_floor" [v] = Ok (convert tint (log2_model v)).
+Proof.
+  unfold call_int, interp. change DEPTH with (S 11). rewrite run_S.
+  change (find_func leaf_prog "log2_floor") with (Some f_log2_floor).
+  cbv beta iota. rewrite l2_syntax.
+  change (fn_params f_log2_floor) with [(1%positive, Pint tint)]. cbn [map bind_params bind].
+  rewrite l2_prologue. destruct (l2_reach (run zops leaf_prog LFUEL 11) LFUEL v) as [vf Hr].
+  unfold l2_loop. rewrite (exec_Sloop_reach _ _ _ _ _ _ _ 5 _ Hr) by (unfold LFUEL; lia).
+  cbn [bind]. reflexivity.
+Qed.
+
+(** the mask test of iteration (s, mask = bits [s, 2s)) is a comparison with 2^s *)
+Lemma cond_lt s mask P P2 v : 0 < s -> 2 * s <= 32 -> mask = Z.shiftl (Z.ones s) s ->
+  P = 2 ^ s -> P2 = 2 ^ (2 * s) -> 0 <= v < P2 ->
+  (Z.land (v mod 4294967296) mask mod 4294967296 =? 0) = (v <? P).
+Proof.
+  intros Hs Hs2 -> -> -> Hv.
+  assert (H32 : 2 ^ (2 * s) <= 4294967296) by (change 4294967296 with (2 ^ 32); apply Z.pow_le_mono_r; lia).
+  rewrite (Z.mod_small v) by lia.
+  assert (HX : Z.land v (Z.shiftl (Z.ones s) s) = Z.shiftl (Z.shiftr v s) s).
+  { apply Z.bits_inj'. intros k Hk. rewrite Z.land_spec, testbit_range_mask by lia.
+    rewrite Z.shiftl_spec by lia. destruct (Z.leb_spec s k) as [Hle|Hlt]; cbn [andb].
+    - rewrite Z.shiftr_spec by lia. replace (k - s + s) with k by lia.
+      destruct (Z.ltb_spec k (s + s)); [now rewrite andb_true_r|]. rewrite andb_false_r.
+      destruct (Z.eq_dec v 0) as [->|Hne]; [symmetry; apply Z.testbit_0_l|].
+      symmetry. apply Z.bits_above_log2; [lia|].
+      assert (Z.log2 v < 2 * s) by (apply Z.log2_lt_pow2; lia). lia.
+    - rewrite andb_false_r. symmetry. apply Z.testbit_neg_r. lia. }
+  rewrite HX, Z.shiftl_mul_pow2, Z.shiftr_div_pow2 by lia.
+  assert (Hp : 0 < 2 ^ s) by (apply Z.pow_pos_nonneg; lia).
+  assert (Hd : 0 <= v / 2 ^ s) by (apply Z.div_pos; lia).
+  assert (Hle : v / 2 ^ s * 2 ^ s <= v) by (rewrite Z.mul_comm; apply Z.mul_div_le; lia).
+  rewrite Z.mod_small by nia.
+  destruct (Z.ltb_spec v (2 ^ s)) as [Hlt|Hge].
+  - rewrite Z.div_small by lia. reflexivity.
+  - assert (1 <= v / 2 ^ s) by (apply Z.div_le_lower_bound; lia).
+    destruct (Z.eqb_spec (v / 2 ^ s * 2 ^ s) 0); [nia|reflexivity].
+Qed.
+
+Ltac l2_stage :=
+  match goal with
+  | |- context [l2it ?s ?mask (?v, ?r)] =>
+      change (l2it s mask (v, r)) with
+        (if Z.land (v mod 4294967296) mask mod 4294967296 =? 0 then (v, r)
+         else (Z.shiftr v s, Z.lor r s mod 4294967296));
+      let P := eval vm_compute in (2 ^ s) in
+      let P2 := eval vm_compute in (2 ^ (2 * s)) in
+      rewrite (cond_lt s mask P P2 v) by (first [reflexivity | lia]);
+      destruct (Z.ltb_spec v P)
+  end.
+
+Ltac Zify.zify_post_hook ::= Z.div_mod_to_equations.
+
+Lemma log2_model_spec v : 0 <= v < 2 ^ 31 -> log2_model v = Z.log2 v.
+Proof.
+  intros Hv. destruct (Z.eq_dec v 0) as [->|Hne]; [reflexivity|].
+  change (2 ^ 31) with 2147483648 in Hv. unfold log2_model.
+  l2_stage; rewrite ?Z.shiftr_div_pow2 in * by lia; change (2 ^ 16) with 65536 in *.
+  all: l2_stage; rewrite ?Z.shiftr_div_pow2 in * by lia; change (2 ^ 8) with 256 in *.
+  all: l2_stage; rewrite ?Z.shiftr_div_pow2 in * by lia; change (2 ^ 4) with 16 in *.
+  all: l2_stage; rewrite ?Z.shiftr_div_pow2 in * by lia; change (2 ^ 2) with 4 in *.
+  all: l2_stage; rewrite ?Z.shiftr_div_pow2 in * by lia; change (2 ^ 1) with 2 in *.
+  all: cbn [snd].
+  all: match goal with |- ?r = _ => let r' := eval vm_compute in r in change r with r' end.
+  all: symmetry; apply Z.log2_unique; [lia|].
+  all: match goal with |- 2 ^ ?a <= _ < 2 ^ ?b =>
+         let x := eval vm_compute in (2 ^ a) in let y := eval vm_compute in (2 ^ b) in
+         change (2 ^ a) with x; change (2 ^ b) with y end.
+  all: lia.
+Qed.
+
+(** log2_floor(v) = floor(log2 v) for every 0 < v < 2^31, and 0 for v = 0 (= Z.log2 0) *)
+Theorem log2_floor_spec v : 0 <= v < 2 ^ 31 -> call_int "log2_floor" [v] = Ok (Z.log2 v).
+Proof.
+  intros Hv. rewrite log2_floor_run, log2_model_spec by assumption. f_equal.
+  assert (0 <= Z.log2 v < 31).
+  { split; [apply Z.log2_nonneg|]. destruct (Z.eq_dec v 0) as [->|Hne]; [reflexivity|].
+    apply Z.log2_lt_pow2; lia. }
+  unfold convert. cbn [signed tint wd whalf wmod]. rewrite Z.mod_small by lia. lia.
+Qed.
+
+(** * m4ri_gray_code (graycode.c:31): for every length 0..31 and every non-negative int *)
+Definition P31 (z : Z) : Prop := 0 <= z < 2 ^ 31.
+
+Lemma lt_pow2_bits a n : 0 <= a -> 0 <= n -> (forall k, n <= k -> Z.testbit a k = false) -> a < 2 ^ n.
+Proof.
+  intros Ha Hn H. destruct (Z.eq_dec a 0) as [->|Hne]; [apply Z.pow_pos_nonneg; lia|].
+  apply Z.log2_lt_pow2; [lia|]. destruct (Z.lt_ge_cases (Z.log2 a) n) as [|Hge]; [assumption|].
+  pose proof (Z.bit_log2 a ltac:(lia)) as Hb. rewrite H in Hb by assumption. discriminate.
+Qed.
+
+Lemma bits_above a n k : 0 <= a < 2 ^ n -> n <= k -> Z.testbit a k = false.
+Proof.
+  intros [H0 H1] Hk. destruct (Z.eq_dec a 0) as [->|Hne]; [apply Z.testbit_0_l|].
+  assert (0 <= n) by (destruct (Z.lt_ge_cases n 0); [rewrite Z.pow_neg_r in H1 by lia; lia|assumption]).
+  apply Z.bits_above_log2; [lia|]. assert (Z.log2 a < n) by (apply Z.log2_lt_pow2; lia). lia.
+Qed.
+
+Lemma P31_land a b : 0 <= a -> P31 b -> P31 (Z.land a b).
+Proof.
+  intros Ha Hb. split; [apply Z.land_nonneg; now left|].
+  apply lt_pow2_bits; [apply Z.land_nonneg; now left|lia|].
+  intros k Hk. rewrite Z.land_spec, (bits_above b 31 k Hb Hk). apply andb_false_r.
+Qed.
+Lemma P31_lor a b : P31 a -> P31 b -> P31 (Z.lor a b).
+Proof.
+  intros Ha Hb. split; [apply Z.lor_nonneg; split; [apply Ha|apply Hb]|].
+  apply lt_pow2_bits; [apply Z.lor_nonneg; split; [apply Ha|apply Hb]|lia|].
+  intros k Hk. now rewrite Z.lor_spec, (bits_above a 31 k Ha Hk), (bits_above b 31 k Hb Hk).
+Qed.
+Lemma P31_lxor a b : P31 a -> P31 b -> P31 (Z.lxor a b).
+Proof.
+  intros Ha Hb. split; [apply Z.lxor_nonneg; split; intros _; [apply Hb|apply Ha]|].
+  apply lt_pow2_bits; [apply Z.lxor_nonneg; split; intros _; [apply Hb|apply Ha]|lia|].
+  intros k Hk. now rewrite Z.lxor_spec, (bits_above a 31 k Ha Hk), (bits_above b 31 k Hb Hk).
+Qed.
+Lemma P31_div2 a : P31 a -> P31 (Z.div2 a).
+Proof. intros [H0 H1]. rewrite Z.div2_div. split; [apply Z.div_pos; lia|]. apply Z.div_lt_upper_bound; lia. Qed.
+Lemma P31_pow i : 0 <= i <= 30 -> P31 (Z.shiftl 1 i).
+Proof.
+  intros Hi. rewrite Z.shiftl_1_l. split; [apply Z.pow_nonneg; lia|].
+  apply Z.pow_lt_mono_r; lia.
+Qed.
+
+Definition genv (o6 : option Z) (number length lastbit res i : Z) : @env Z :=
+  let e5 := tset 5 (Vint i) (tset 4 (Vint res) (tset 3 (Vint lastbit) (tset 2 (Vint length) (tset 1 (Vint number) TLeaf)))) in
+  match o6 with None => e5 | Some b => tset 6 (Vint b) e5 end.
+
+Definition gray_cond := Some (Ecmp Cge (Evar 5) (Econst 0)).
+Definition gray_body :=
+ (Sseq (Sdecl 6 (Some (Ebinop Oand tint (Evar 1) (Eshift Oshl tint (Econst 1) (Evar 5)))))
+ (Sseq (Sassign (Lvar 4) (Ebinop Oor tint (Evar 4) (Ebinop Oxor tint (Eshift Oshr tint (Evar 3) (Econst 1)) (Evar 6))))
+ (Sassign (Lvar 3) (Evar 6)))).
+Definition gray_step := (Sassign (Lvar 5) (Ebinop Osub tint (Evar 5) (Econst 1))).
+Definition gray_whole :=
+ (Sseq (Sdecl 3 (Some (Econst 0)))
+ (Sseq (Sdecl 4 (Some (Econst 0)))
+ (Sseq (Sseq (Sdecl 5 (Some (Ebinop Osub tint (Evar 2) (Econst 1)))) (Sloop gray_cond gray_body gray_step))
+ (Sreturn (Some (Evar 4)))))).
+
+Lemma exec_Sdecl_some {V} (ops : vops V) call lf x ex e m :
+  exec ops call lf (Sdecl x (Some ex)) e m = (do v <- eval ops e m ex; Ok (ONormal (tset x v e) m)).
+Proof. reflexivity. Qed.
+
+Lemma gray_syntax : fn_body f_m4ri_gray_code = gray_whole.
+Proof. reflexivity. Qed.
+
+Definition gf call lf := loop_step zops gray_cond (exec zops call lf gray_body) (exec zops call lf gray_step).
+
+Lemma P31_range z : P31 z -> in_range tint z = true.
+Proof. unfold P31, in_range. cbn. lia. Qed.
+
+Lemma gray_iter call lf o6 number length lastbit res i m :
+  0 <= i <= 30 -> 0 <= number -> P31 lastbit -> P31 res ->
+  gf call lf (genv o6 number length lastbit res i, m) =
+  Ok (LCont (genv (Some (Z.land number (Z.shiftl 1 i))) number length (Z.land number (Z.shiftl 1 i))
+                  (Z.lor res (Z.lxor (Z.div2 lastbit) (Z.land number (Z.shiftl 1 i)))) (i - 1), m)).
+Proof.
+  intros Hi Hn Hl Hr.
+  pose proof (P31_pow i Hi) as Hp.
+  pose proof (P31_land number _ Hn Hp) as Hbit.
+  pose proof (P31_lxor _ _ (P31_div2 _ Hl) Hbit) as Hx.
+  pose proof (P31_lor _ _ Hr Hx) as Hres.
+  unfold gf, loop_step, truth, gray_cond, gray_body, gray_step. destruct o6; cbn.
+  all: if_true lia; cbn.
+  all: if_true lia; cbn.
+  all: rewrite (P31_range _ Hp); cbn.
+  all: rewrite (P31_range _ Hbit); cbn.
+  all: rewrite (P31_range _ Hx); cbn.
+  all: rewrite (P31_range _ Hres); cbn.
+  all: if_true rng; cbn.
+  all: reflexivity.
+Qed.
+
+Lemma gray_stop call lf o6 number length lastbit res m :
+  gf call lf (genv o6 number length lastbit res (-1), m) =
+  Ok (LStop (ONormal (genv o6 number length lastbit res (-1)) m)).
+Proof. unfold gf, loop_step, truth, gray_cond. destruct o6; cbn; reflexivity. Qed.
+
+Lemma gray_reach call lf (number : N) length m : forall k o6 lb res, (k <= 31)%nat ->
+  P31 (Z.of_N lb) -> P31 (Z.of_N res) ->
+  exists o6' lb',
+    reach (gf call lf) k
+          (genv o6 (Z.of_N number) length (Z.of_N lb) (Z.of_N res) (Z.of_nat k - 1), m)
+          (ONormal (genv o6' (Z.of_N number) length lb' (Z.of_N (gray_loop number k lb res)) (-1)) m).
+Proof.
+  induction k as [|k IH]; intros o6 lb res Hk Hl Hr.
+  - exists o6, (Z.of_N lb). apply reach0. cbn [gray_loop]. apply gray_stop.
+  - set (bit := N.land number (N.shiftl 1 (N.of_nat k))).
+    set (res' := N.lor res (N.lxor (N.shiftr lb 1) bit)).
+    assert (Hb : Z.of_N bit = Z.land (Z.of_N number) (Z.shiftl 1 (Z.of_nat k))).
+    { unfold bit. rewrite of_N_land, of_N_shiftl. now rewrite nat_N_Z. }
+    assert (Hr' : Z.of_N res' = Z.lor (Z.of_N res) (Z.lxor (Z.div2 (Z.of_N lb)) (Z.of_N bit))).
+    { unfold res'. rewrite of_N_lor, of_N_lxor, of_N_shiftr. reflexivity. }
+    assert (Hp : P31 (Z.shiftl 1 (Z.of_nat k))) by (apply P31_pow; lia).
+    assert (Hbit : P31 (Z.of_N bit)) by (rewrite Hb; apply P31_land; [lia|assumption]).
+    assert (Hres : P31 (Z.of_N res')).
+    { rewrite Hr'. apply P31_lor; [assumption|]. apply P31_lxor; [now apply P31_div2|assumption]. }
+    destruct (IH (Some (Z.of_N bit)) bit res' ltac:(lia) Hbit Hres) as (o6' & lb' & Hreach).
+    exists o6', lb'. eapply reachS.
+    + replace (Z.of_nat (S k) - 1) with (Z.of_nat k) by lia. apply gray_iter; [lia|lia|assumption|assumption].
+    + rewrite <- Hb, <- Hr'. cbn [gray_loop]. fold bit. fold res'. exact Hreach.
+Qed.
+
+(** the translated m4ri_gray_code agrees with the model Gray.gray_code for EVERY length 0..31 and
+    every non-negative int (beyond length 31 the C code shifts 1 << 31: undefined behaviour) *)
+Theorem gen_gray_code_eq (l : nat) (number : N) : (l <= 31)%nat -> (number < 2 ^ 31)%N ->
+  call_int "m4ri_gray_code" [Z.of_N number; Z.of_nat l] = Ok (Z.of_N (gray_code number l)).
+Proof.
+  intros Hl Hn. unfold call_int, interp. change DEPTH with (S 11). rewrite run_S.
+  change (find_func leaf_prog "m4ri_gray_code") with (Some f_m4ri_gray_code).
+  cbv beta iota. rewrite gray_syntax.
+  change (fn_params f_m4ri_gray_code) with [(1%positive, Pint tint); (2%positive, Pint tint)].
+  cbn [map bind_params bind].
+  generalize (run zops leaf_prog LFUEL 11); intros call.
+  unfold gray_whole.
+  rewrite exec_Sseq, exec_Sdecl_some. cbn [eval bind v_const zops].
+  rewrite exec_Sseq, exec_Sdecl_some. cbn [eval bind v_const zops].
+  rewrite exec_Sseq, exec_Sseq, exec_Sdecl_some.
+  assert (Hev : eval zops (tset 4 (Vint 0) (tset 3 (Vint 0) (tset 2 (Vint (Z.of_nat l)) (tset 1 (Vint (Z.of_N number)) TLeaf))))
+                  empty_mem (Ebinop Osub tint (Evar 2) (Econst 1)) = Ok (Vint (Z.of_nat l - 1))).
+  { cbn. if_true rng. cbn. reflexivity. }
+  rewrite Hev. cbn [bind].
+  change (tset 5 (Vint (Z.of_nat l - 1)) (tset 4 (Vint 0) (tset 3 (Vint 0) (tset 2 (Vint (Z.of_nat l)) (tset 1 (Vint (Z.of_N number)) TLeaf)))))
+    with (genv None (Z.of_N number) (Z.of_nat l) (Z.of_N 0) (Z.of_N 0) (Z.of_nat l - 1)).
+  assert (H0 : P31 (Z.of_N 0)) by (unfold P31; cbn; lia).
+  destruct (gray_reach call LFUEL number (Z.of_nat l) empty_mem l None 0%N 0%N Hl H0 H0) as (o6' & lb' & Hreach).
+  rewrite (exec_Sloop_reach _ _ _ _ _ _ _ l _ Hreach) by (unfold LFUEL; lia).
+  cbn [bind]. unfold gray_code. destruct o6'; reflexivity.
+Qed.
+
+Example gen_gray_code_example : call_int "m4ri_gray_code" [5; 3] = Ok 7.
+Proof. exact (gen_gray_code_eq 3 5 ltac:(lia) ltac:(lia)). Qed.
